@@ -13,7 +13,12 @@
    rebuild them - C09) that evaluation is the one-process evaluation. Under the default configuration a user-defined class arrives as
    a stand-in: class-selective catching then differs from the local run (c01_selective_catch_refuted_when_class_replaced; known
    finding F46, produced for real by the harness's second phase, whose trees are now run through the model with the table of the
-   configuration in force). Still outside the model: (b) that a result/argument of any SHAPE is the same value or a reference to the
+   configuration in force). [xw] is ONE function: both ends are taken to be configured alike (the harness connects pairs with the same
+   configuration); a connection whose ends treat classes differently is not an instance. Classes the code never sends back at all
+   are excluded: KeyboardInterrupt (and SystemExit when configured so) raised by a callee is re-raised in the callee's serving
+   thread instead of being answered (propagate_*_locally: known finding F26 under C08) and exception groups are not rebuilt (F10
+   under C09) - the machine answers every request, so a tree raising those is not described by these theorems; the harness does
+   not generate them. Still outside the model: (b) that a result/argument of any SHAPE is the same value or a reference to the
    same object (C03/C04; run differentially here); (c) the machine's waits have no expiry: the real sync_request_timeout (30 s by
    default) turns a callee that runs longer into a TimeoutError at the caller (timeouts are C15's). *)
 From V Require Import lib.Base model.CallTree proofs.CallTreeP proofs.CallTreeTie gen.Gen_calls.
